@@ -156,6 +156,45 @@ def run(ctx, rep):
         if not ok:
             rep.violation('S3', vkey('S3', FE.name, 'add_existing', ''), FE.loc(FE.span),
                           'existing short names are not recorded in the generator while the directory is scanned')
+    # S3.all: an entry that matches the plain form exactly is still recorded for the numbered forms (an existing `QUARTE~1`
+    # is both the exact match of the name `quarte~1` and the first numbered candidate)
+    AE = facts.fns.get('fatfs::dir::ShortNameGenerator::add_existing')
+    if AE is None:
+        rep.machinery('ANCHOR-MISSING ShortNameGenerator::add_existing')
+    else:
+        def bitmap_sites(fn, depth=0, seen=None):
+            """blocks of fn that store to a collision bitmap, or call a fatfs function that (transitively) does"""
+            seen = seen if seen is not None else set()
+            out = set()
+            for bi in fn.reachable():
+                for s_ in fn.blocks[bi]['stmts']:
+                    if s_['k'] == 'assign' and s_['lhs']['p'] and \
+                            [e.get('n') for e in s_['lhs']['p'] if 'f' in e][-1:] and \
+                            [e.get('n') for e in s_['lhs']['p'] if 'f' in e][-1].endswith('_bitmap'):
+                        out.add(bi)
+                t = fn.blocks[bi]['term']
+                if t['k'] == 'call' and depth < 3:
+                    c = facts.fns.get(t.get('callee') or '')
+                    if c is not None and c.crate.startswith('fatfs') and c.name not in seen:
+                        seen.add(c.name)
+                        if bitmap_sites(c, depth + 1, seen):
+                            out.add(bi)
+            return out
+        sites = bitmap_sites(AE)
+        # the store of `exact_match = true`
+        exact = [bi for bi in AE.reachable() for s_ in AE.blocks[bi]['stmts']
+                 if s_['k'] == 'assign' and s_['lhs']['p'] and [e.get('n') for e in s_['lhs']['p'] if 'f' in e][-1:] == ['exact_match']]
+        ok = bool(sites) and bool(exact) and all(set(AE.reach_from([b])) >= sites for b in exact)
+        rep.oblige('S3.all', AE.name, ok=ok, nontrivial=True,
+                   sample={'fn': AE.name, 'bitmap_update_sites': len(sites), 'exact_match_stores': len(exact)})
+        if not sites or not exact:
+            rep.machinery('ANCHOR add_existing: bitmap updates / exact_match store not found (%d / %d)' % (len(sites), len(exact)))
+        elif not ok:
+            rep.violation('S3', vkey('S3', AE.name, 'exact-and-numbered', ''), AE.loc(AE.span),
+                          'an existing short name that equals the plain form is not recorded for the numbered forms as well '
+                          '(the path that sets exact_match does not reach every collision-bitmap update): the same numbered alias '
+                          'can be handed out twice')
+
     # S3.chk: a checksum-form entry only blocks a numeric tail when its checksum digits equal the generator's current
     # checksum (otherwise changing the checksum in next_iteration could never free a tail and the retry loop would
     # not end): the bitmap update is control-dependent on a comparison with self.chksum
